@@ -36,7 +36,7 @@ structure Provided.Sound (B : Basic α) (P : Provided α) : Prop where
 
 /-- every entry of a vtable equals its closed form. -/
 structure VTable.Sound (B : Basic α) (vt : VTable α) : Prop where
-  calc : ∀ g y Sig, g.length = B.m → y.length = B.m → (Sig.length = 1 ∨ Sig.length = B.m) →
+  calcY : ∀ g y Sig, g.length = B.m → y.length = B.m → (Sig.length = 1 ∨ Sig.length = B.m) →
     calc_yhat_dTyhat vt g y Sig = (dsqSpec B.proj_diff_g g y Sig, yhatSpec B.proj_diff_g g y Sig)
   f_grad_f : ∀ x, x.length = B.n → vt.eval_f_grad_f x = specFGradF B x
   f_g : ∀ x, x.length = B.n → vt.eval_f_g x = specFG B x
